@@ -57,6 +57,8 @@ def tok_text(t, base="BASE", long_n=LONG_N, prev=None):
         return "9" * long_n
     if v == "<LONGA>":
         return "A" * long_n
+    if v == "<FLOOD0>":
+        return " ".join(["0"] * 5000)
     if v == "<WS>":
         return " \t  "
     if v == "<BASE>":
